@@ -19,6 +19,16 @@ import tokenize
 SPELL_DISABLE = "pytype: disable"
 SPELL_IGNORE = "type: ignore"
 
+# The error classes directors.py documents as line-adjusted.  Copied here (not
+# imported) so that the known-by-design deviation is recognised only for the
+# documented classes; an extra removal of any other class gets its own key.
+DOC_CALL_ERRORS = frozenset((
+    "attribute-error", "duplicate-keyword", "invalid-annotation", "missing-parameter", "not-instantiable",
+    "wrong-arg-count", "wrong-arg-types", "wrong-keyword-args", "unsupported-operands"))
+DOC_ADJUSTABLE = DOC_CALL_ERRORS | frozenset((
+    "annotation-type-mismatch", "bad-return-type", "bad-yield-annotation", "container-type-mismatch",
+    "not-supported-yet", "signature-mismatch"))
+
 
 # ---------------------------------------------------------------------------
 # source edits
@@ -256,8 +266,8 @@ def classify_trailing(geo: Geometry, E, L, spelling, survivors, missing, added, 
   for m, twin in moved:
     if (m[0] == "bad-return-type" and geo.is_implicit_return_line(m[1]) and st and m[1] == st[1]
         and twin[1] == st[0] and st[0] < st[1]):
-      keys.append((f"`{spelling}` comment on the last line of a function's final multi-line statement moves the "
-                   "implicit-return bad-return-type error from that line to the statement's first line",
+      keys.append((f"`{spelling}` comment inside a function's final multi-line statement moves the implicit-return "
+                   "bad-return-type error from the function's last line to that statement's first line",
                    {"moved": [m, twin]}))
     else:
       keys.append((f"`{spelling}` on a {where} of a {kind} statement moves a {m[0]} error to another line "
@@ -266,14 +276,24 @@ def classify_trailing(geo: Geometry, E, L, spelling, survivors, missing, added, 
     adj = "implicit-return line" if (s[0] == "bad-return-type" and geo.is_implicit_return_line(L)) else where
     keys.append((f"`{spelling}` on the reported line does not silence {s[0]} ({adj} of a {kind} statement)",
                  {"survivor": s}))
+  if spelling == SPELL_IGNORE:
+    doc_stmt = doc_call = (lambda n: True)
+  else:
+    doc_stmt = lambda n: n == E and n in DOC_ADJUSTABLE
+    doc_call = lambda n: n == E and n in DOC_CALL_ERRORS
   for m in missing_left:
-    if st and m[1] == st[0] and st[0] < L <= st[1] and named(m[0]):
+    if st and m[1] == st[0] and st[0] < L <= st[1] and doc_stmt(m[0]):
       keys.append((f"`{spelling}` on a continuation line also silences an error of a named class on the first "
                    "line of the statement containing it", {"extra_removed": m}))
-    elif m[1] in geo.enclosing_expr_starts(L) and named(m[0]):
+    elif m[1] in geo.enclosing_expr_starts(L) and doc_call(m[0]):
       keys.append((f"`{spelling}` on a continuation line also silences an error of a named class on the first "
                    "line of an enclosing call/compare/subscript expression (not the statement's first line)",
                    {"extra_removed": m}))
+    elif (m[0] == "bad-return-type" and geo.is_implicit_return_line(m[1]) and st and st[0] < st[1]
+          and m[1] == st[1] and st[0] <= L <= st[1] and doc_stmt(m[0])):
+      keys.append((f"`{spelling}` inside a function's final multi-line statement also silences the implicit-return "
+                   "bad-return-type error reported on the function's last line (the comment moves that error to "
+                   "the statement's first line, which the directive also covers)", {"extra_removed": m}))
     else:
       rel = "same statement" if st and st[0] <= m[1] <= st[1] else "another statement"
       keys.append((f"`{spelling}` on a {where} of a {kind} statement removes a {m[0]} error on a different line "
@@ -290,15 +310,38 @@ def classify_trailing(geo: Geometry, E, L, spelling, survivors, missing, added, 
   return keys
 
 
-def classify_standalone(geo: Geometry, E, a, b, missing, added, stub_changed, survivors):
+def classify_standalone(geo: Geometry, E, a, b, missing, added, stub_changed, survivors, inside=(),
+                        unshift=None):
+  """All report tuples are in the numbering of the edited program; `unshift` maps an
+  edited line back to the original line.  inside: errors the range had to remove."""
+  unshift = unshift or {}
   keys = []
   added_left = list(added)
   missing_left = []
+
+  def implicit_move(m, twin):
+    """m (implicit-return error on the last line of a multi-line final statement) re-appears
+    on that statement's first line."""
+    if m[0] != "bad-return-type":
+      return False
+    o, t = unshift.get(m[1]), unshift.get(twin[1])
+    st = geo.statement_of(o) if o else None
+    return bool(st and geo.is_implicit_return_line(o) and st[0] < st[1] == o and t == st[0]
+                and (st[0] < a <= st[1] or (b is not None and st[0] < b <= st[1])))
+
+  for m in inside:   # an error that had to go but re-appears on another line, outside the range
+    twin = next((x for x in added_left if x[0] == m[0] and shift_free(x[2]) == shift_free(m[2])
+                 and x[1] != m[1]), None)
+    if twin is not None and implicit_move(m, twin):
+      added_left.remove(twin)
+      keys.append(("stand-alone directive comment inside a function's final multi-line statement moves the "
+                   "implicit-return bad-return-type error to the statement's first line",
+                   {"moved": [m, twin], "note": "moved out of the disabled range"}))
   for m in missing:
     twin = next((x for x in added_left if x[0] == m[0] and shift_free(x[2]) == shift_free(m[2])), None)
     if twin is not None:
       added_left.remove(twin)
-      if m[0] == "bad-return-type":
+      if implicit_move(m, twin):
         keys.append(("stand-alone directive comment inside a function's final multi-line statement moves the "
                      "implicit-return bad-return-type error to the statement's first line", {"moved": [m, twin]}))
       else:
@@ -309,8 +352,18 @@ def classify_standalone(geo: Geometry, E, a, b, missing, added, stub_changed, su
   for s in survivors:
     keys.append((f"stand-alone disable..enable range does not silence {s[0]} inside the range", {"survivor": s}))
   for m in missing_left:
-    keys.append((f"stand-alone disable..enable range silences {m[0]} outside the range "
-                 f"({'named class' if m[0] == E else 'class NOT named'})", {"extra_removed": m}))
+    o = unshift.get(m[1])
+    st = geo.statement_of(o) if o else None
+    if (m[0] == E == "bad-return-type" and st and geo.is_implicit_return_line(o) and st[0] < st[1] == o
+        and b is not None and st[0] < b <= st[1] and a <= st[0]):
+      # the comment sits inside the final statement: the error moves to the statement's first
+      # line; if that line is inside the range it is silenced there
+      keys.append(("stand-alone directive comment inside a function's final multi-line statement moves the "
+                   "implicit-return bad-return-type error to the statement's first line",
+                   {"extra_removed": m, "note": "moved into the disabled range"}))
+    else:
+      keys.append((f"stand-alone disable..enable range silences {m[0]} outside the range "
+                   f"({'named class' if m[0] == E else 'class NOT named'})", {"extra_removed": m}))
   for x in added_left:
     keys.append((f"stand-alone directive adds a new {x[0]} error", {"added": x}))
   if stub_changed:
